@@ -34,6 +34,9 @@ type e2eObs struct {
 	Exit    int            `json:"exit"`
 	Stderr  string         `json:"stderr"`
 	Ms      int64          `json:"ms"`
+	// bad-entries run: entries of the target file that cannot become a probe, and the error records on stderr
+	BadEntries int `json:"bad_entries"`
+	ErrRecords int `json:"err_records"`
 }
 
 type counter struct {
@@ -98,10 +101,15 @@ func runE2E(sx, outp string) {
 	var res []e2eObs
 	var mu sync.Mutex
 	var wg sync.WaitGroup
-	for _, kind := range []string{"socks", "elastic", "docker"} {
+	for _, kind := range []string{"socks", "elastic", "docker", "socks+bad"} {
 		wg.Add(1)
 		go func(kind string) {
 			defer wg.Done()
+			bad := 0
+			if kind == "socks+bad" {
+				// one good target followed by many entries that cannot become a probe: one error record each
+				kind, bad = "socks", 260
+			}
 			cnt := &counter{n: map[string]int{}}
 			var ports []int
 			for i := 0; i < 2; i++ {
@@ -126,7 +134,14 @@ func runE2E(sx, outp string) {
 				fmt.Fprintf(&file, "{\"ip\":\"127.0.0.1\",\"port\":%d}\n", p)
 				o.Targets = append(o.Targets, fmt.Sprintf("127.0.0.1:%d", p))
 			}
-			fn := filepath.Join(dir, kind+".jsonl")
+			for i := 0; i < bad; i++ {
+				fmt.Fprintf(&file, "{\"ip\":\"10.0.%d.999\",\"port\":%d}\n", i%250, 1000+i)
+			}
+			o.BadEntries = bad
+			if bad > 0 {
+				o.Class = "e2e-bad-entries"
+			}
+			fn := filepath.Join(dir, fmt.Sprintf("%s-%d.jsonl", kind, bad))
 			os.WriteFile(fn, file.Bytes(), 0o644)
 			o.Args = []string{kind, "--json", "-f", fn, "-w", "1", "--exit-delay", "300ms", "-t", "2s"}
 			var stdout, stderr bytes.Buffer
@@ -140,6 +155,11 @@ func runE2E(sx, outp string) {
 				o.Exit = ee.ExitCode()
 			} else if err != nil {
 				o.Exit = -1
+			}
+			for _, line := range strings.Split(stderr.String(), "\n") {
+				if strings.Contains(line, "\"level\":\"error\"") {
+					o.ErrRecords++
+				}
 			}
 			o.Stderr = stderr.String()
 			if len(o.Stderr) > 600 {
